@@ -114,13 +114,14 @@ reg(
 reg(
     "C12",
     "A case is (N in 1..64, log-weight vector of a generated class: generic / degenerate (one finite) / partly -inf / "
-    "near-uniform / wide dynamic range / exactly uniform, method, accumulated estimate, key). Particles are a genuine "
+    "near-uniform / wide dynamic range / exactly uniform, optionally shifted as a whole by -60 / -250 / -1000 / +70 (resampling depends on "
+    "the normalised weights only), method, accumulated estimate, key). Particles are a genuine "
     "vectorized trace whose every leaf encodes its lane. For systematic resampling the random offset is scripted and "
     "EVERY cell of the partition of (0,1) induced by the breakpoints {N*C_j - i} is probed (midpoint and both edges). "
     "Non-trivial: N >= 2 and weights not all equal. Distinct = (N, method, weights rounded to 1e-3).",
     quick={"shards": 16, "timeout_s": 3000, "n_cases": 40, "n_runs": 1500, "stat_every": 8,
            "required_classes": ["C12.systematic", "C12.categorical", "C12.w_degenerate", "C12.w_partly_neg_inf", "C12.w_near_uniform",
-                                "C12.w_wide_range", "C12.w_generic", "C12.N_1", "C12.N_large", "C12.offset_cells_probed"]},
+                                "C12.w_wide_range", "C12.w_generic", "C12.N_1", "C12.N_large", "C12.offset_cells_probed", "C12.common_shift_down", "C12.common_shift_up"]},
     thorough={"shards": 16, "timeout_s": 3 * 3600, "n_cases": 320, "n_runs": 6000, "stat_every": 4,
               "required_classes": ["C12.systematic", "C12.categorical", "C12.w_degenerate", "C12.w_partly_neg_inf", "C12.N_1"]},
 )
@@ -131,9 +132,13 @@ reg(
     "third of the cases, observation sequence sampled from the model (positive probability). Linear-Gaussian cases: d_state, "
     "d_obs in 1..3 (independently, so d_obs != d_state in most), T in 1..6, A and C generated, SPD covariances B B^T + lambda I. "
     "Oracles: brute force over all K^T state sequences; dense joint Gaussian conditioning in float64. Non-trivial: T >= 2 and "
-    "(sparse or K != M) for HMMs, T >= 2 and d_obs != d_state for LG. Distinct = hash of the case.",
+    "(sparse or K != M) for HMMs, T >= 2 and d_obs != d_state for LG. Long-sequence HMM cases (T in {80, 200, 500}, or 12-30 "
+    "steps that repeatedly observe a symbol of emission probability ~1e-9, so that the unnormalised forward messages leave the "
+    "float32 range) are compared with a float64 scaled forward recursion that is itself checked against brute force on a prefix. "
+    "Distinct = hash of the case.",
     quick={"shards": 16, "timeout_s": 3000, "n_cases": 24, "n1": 4000, "stat_every": 3,
-           "required_classes": ["C20.hmm", "C20.lg", "C20.hmm_sparse", "C20.hmm_T1", "C20.lg_nonsquare", "C20.lg_T1", "C20.lg_square"]},
+           "required_classes": ["C20.hmm", "C20.lg", "C20.hmm_sparse", "C20.hmm_T1", "C20.lg_nonsquare", "C20.lg_T1", "C20.lg_square", "C20.hmm_long",
+                                "C20.hmm_long_rare_symbol", "C20.hmm_long_T>=80"]},
     thorough={"shards": 16, "timeout_s": 3 * 3600, "n_cases": 200, "n1": 20000, "stat_every": 2,
               "required_classes": ["C20.hmm", "C20.lg", "C20.hmm_sparse", "C20.hmm_T1", "C20.lg_nonsquare", "C20.lg_T1"]},
 )
@@ -162,7 +167,8 @@ reg(
     "leaf-mode save inside a namespace, lax.scan bodies (nested scans, namespaces around and inside scans), jax.vmap / "
     "modular_vmap around saving code, repeated names, sampling sites - in one of the configurations state(f), jit(state(f)), "
     "seed(state(f)). Every saved value is a known affine function of (argument, scan index, lane, carry). Non-trivial: a save "
-    "under >= 2 enclosing constructs of different kinds. Distinct = hash of the case.",
+    "under >= 2 enclosing constructs of different kinds. The same transformed function object is called a second time with another "
+    "argument value and the dictionary of the first call is read only afterwards. Distinct = hash of the case.",
     quick={"shards": 16, "timeout_s": 3000, "n_cases": 40,
            "required_classes": ["C19.cfg_eager", "C19.cfg_jit", "C19.cfg_seed", "C19.save_under_ns+scan", "C19.save_under_scan+ns",
                                 "C19.save_under_scan+scan", "C19.save_under_vmap", "C19.save_under_scan"]},
@@ -189,11 +195,15 @@ reg(
     "C07",
     "A case is a program *shape* from the grammar site | seq | lax.scan | modular_vmap | lax.cond (both branches sampling) | "
     "@gen-simulate, nested to depth 3, whose sites all share parameters (normal(0,1) / uniform(0,1), some with a sample_shape), "
-    "and a key. Every scalar draw is a 'position'. Non-trivial: a site under >= 2 different enclosing constructs. "
+    "and a key; nested seeds (seed(body)(fold_in(inner_key, j)) called inside the seeded function, the inner key being an argument "
+    "derived from the outer key) outside of loops. In addition EVERY chain of enclosing constructs over {scan, vmap, cond, gen} up to "
+    "depth 3 (84 templates) is visited with the equal-draw rule. Every scalar draw is a 'position'. Non-trivial: a site under >= 2 "
+    "different enclosing constructs. "
     "Distinct = hash of the shape.",
     quick={"shards": 16, "timeout_s": 3000, "n_cases": 12, "n1": 4000,
            "required_classes": ["C07.site_under_scan", "C07.site_under_vmap", "C07.site_under_cond", "C07.site_under_gen",
-                                "C07.nest_scan>scan", "C07.nest_scan>vmap", "C07.nest_vmap>scan", "C07.nest_scan>cond", "C07.nest_vmap>site_ss"]},
+                                "C07.nest_scan>scan", "C07.nest_scan>vmap", "C07.nest_vmap>scan", "C07.nest_scan>cond", "C07.nest_vmap>site_ss", "C07.nesting_template",
+                                "C07.site_under_nseed"]},
     thorough={"shards": 16, "timeout_s": 3 * 3600, "n_cases": 96, "n1": 16000,
               "required_classes": ["C07.nest_scan>scan", "C07.nest_scan>vmap", "C07.nest_vmap>scan", "C07.nest_scan>cond"]},
 )
@@ -205,10 +215,15 @@ reg(
     "jit / vmap-over-keys / jit-of-vmap, argument) interleaved with interference (unseeded sampling that advances the global "
     "counter, unseeded program runs, jax.clear_caches(), seeded runs with another argument shape that perturb the staging "
     "cache). Non-trivial: the history contains a repeat separated from its first occurrence by >= 1 interference op and a "
-    "program with a scan, cond or vectorized site. Distinct = hash of the history.",
+    "program with a scan, cond or vectorized site. Scalar arguments take several values under the same calling convention "
+    "(positional 3.0 / 0.5, keyword 2.0 / 4.0): since every position is scale * draw, results for two values of one (program, key) "
+    "must differ exactly by the ratio of the scales. Programs may contain nested seeds; a separate family wraps the program in "
+    "jax.checkpoint / a custom_jvp function behind parameterised equations (seed may refuse those with the dedicated error - counted - "
+    "but if it accepts them the result must be pure). Distinct = hash of the history.",
     quick={"shards": 16, "timeout_s": 3000, "n_histories": 8,
            "required_classes": ["C06.mode_eager", "C06.mode_jit", "C06.mode_vmap_keys", "C06.mode_jit_vmap_keys", "C06.repeat_after_interference",
-                                "C06.prog_with_scan", "C06.prog_with_cond", "C06.prog_with_vmap", "C06.prog_with_gen"]},
+                                "C06.prog_with_scan", "C06.prog_with_cond", "C06.prog_with_vmap", "C06.prog_with_gen", "C06.prog_with_nseed", "C06.prog_with_remat",
+                                "C06.same_key_other_argument_value_compared"]},
     thorough={"shards": 16, "timeout_s": 3 * 3600, "n_histories": 64,
               "required_classes": ["C06.mode_eager", "C06.mode_jit", "C06.mode_vmap_keys", "C06.mode_jit_vmap_keys", "C06.repeat_after_interference"]},
 )
@@ -218,7 +233,9 @@ reg(
     "A case is a deterministic JAX program generated from an op grammar over a value stack (elementwise arithmetic, "
     "comparisons/where, floor / integer round trips / argmax / value-computed gather indices, static and dynamic slicing, "
     "reshape/transpose/stack/concatenate/cumsum/sort, reductions incl. logsumexp, dot/matmul/einsum/outer, lax.cond with a "
-    "data-dependent or constant predicate) and an argument pytree spec (scalars, vectors, matrices, dicts, nested tuples) with "
+    "data-dependent or constant predicate, N-way switch, custom_jvp functions whose declared rule differs from the derivative of "
+    "their body (straight-through round, a declared tangent 3 cos(v) for sin(v), relu exactly at 0), complex intermediates, fft) "
+    "and an argument pytree spec (scalars, vectors, matrices, dicts, nested tuples) with "
     "random primals and tangents. Oracle: jax.jvp / jax.grad / f. Non-trivial: >= 3 ops incl. a shape-changing one, or a "
     "non-differentiable intermediate, or a pytree argument. Distinct = hash of the case.",
     quick={"shards": 16, "timeout_s": 3000, "n_cases": 30,
@@ -265,11 +282,14 @@ reg(
     "count: the kernel's internal randomness is scripted, the proposal and the acceptance threshold are compared with the "
     "float64 reference MH rule. (mixture) the mixture-indicator family z -> Cond(observed branches) with generated parameters: "
     "scripted threshold + full transition matrix. (stationary) conjugate normal targets in 1-3 dimensions: one seeded step "
-    "from exact posterior samples, KS + a detailed-balance statistic. Non-trivial: every case with a non-empty selection. "
+    "from exact posterior samples, KS + a detailed-balance statistic; a third of them with a tight likelihood (s in {0.002, 0.005, "
+    "0.01}, |grad log p| of several hundred over the bulk of the posterior) and a step size relative to the posterior sd. "
+    "Non-trivial: every case with a non-empty selection. "
     "Distinct = hash of the case.",
     quick={"shards": 16, "timeout_s": 3000, "n_ir": 6, "n_fam": 3, "n1": 3000,
            "required_classes": ["C09.ir_mh", "C09.ir_mala", "C09.ir_hmc", "C09.selected_array_valued", "C09.selection_inside_subcall",
-                                "C09.threshold_checked", "C09.mixture_indicator", "C09.stationary_mh", "C09.stationary_mala", "C09.stationary_hmc", "C09.stationary_d2"]},
+                                "C09.threshold_checked", "C09.mixture_indicator", "C09.stationary_mh", "C09.stationary_mala", "C09.stationary_hmc", "C09.stationary_d2",
+                                "C09.stationary_steep_target"]},
     thorough={"shards": 16, "timeout_s": 4 * 3600, "n_ir": 48, "n_fam": 24, "n1": 12000,
               "required_classes": ["C09.ir_mh", "C09.ir_mala", "C09.ir_hmc", "C09.mixture_indicator", "C09.stationary_hmc"]},
 )
@@ -281,8 +301,9 @@ reg(
     "init -> generated moves over {extend, resample(categorical|systematic), rejuvenate(mh)} or rejuvenation_smc with/without "
     "kernel/proposal, return_all_particles). Deterministic: every particle's log weight after every init/extend equals the "
     "reference log p(choices, obs so far) - log q(choices); rejuvenate leaves weights untouched. Statistical: "
-    "E[exp(log_marginal_likelihood())] = exact marginal likelihood (brute force / Kalman), estimate-weighted indicator "
-    "averages = unnormalised posterior. Non-trivial: >= 1 extend or resample after init, or a custom proposal. "
+    "E[exp(log_marginal_likelihood())] = exact marginal likelihood (brute force / Kalman), and exp(log_marginal_likelihood()) * "
+    "particles.estimate(1[z=k]) (the library's own weighted average) = unnormalised posterior; a quarter of the pipelines end on a "
+    "resampling step. Non-trivial: >= 1 extend or resample after init, or a custom proposal. "
     "Distinct = hash of the case.",
     quick={"shards": 16, "timeout_s": 3000, "n_cases": 6, "n1": 3000,
            "required_classes": ["C10.pipeline", "C10.rejuvenation_smc", "C10.family_D", "C10.family_G", "C10.proposal_custom", "C10.proposal_default",
@@ -315,11 +336,12 @@ reg(
     "mean_field_normal_family / full_covariance_normal_family with reparam and reinforce estimators; parameters generic and at "
     "the exact posterior; oracles are the closed-form evidence, posterior, ELBO and (finite-difference of the closed form) "
     "gradient. Recursion cases: optimize_vi on zero-variance objectives (sampling-free and enumeration-only) against the numpy "
-    "recursion params + lr * grad for every iterate. Non-trivial: all conjugate cases (q is neither prior nor posterior for the "
+    "recursion params + lr * grad for every iterate, with the objective scaled by 1, 1e4 or 1e-3 (learning rate rescaled inversely, so "
+    "that gradients of norm 1e4 and 1e-3 occur). Non-trivial: all conjugate cases (q is neither prior nor posterior for the "
     "statistical part); recursion cases with n_iterations >= 2. Distinct = hash of the case.",
     quick={"shards": 16, "timeout_s": 3000, "n_cases": 5, "n1": 4000,
            "required_classes": ["C17.family_mean_field", "C17.family_full_cov", "C17.estimator_reparam", "C17.estimator_reinforce",
-                                "C17.posterior_tightness_checked", "C17.recursion_quadratic", "C17.recursion_enum"]},
+                                "C17.posterior_tightness_checked", "C17.recursion_quadratic", "C17.recursion_enum", "C17.recursion_scale_10000"]},
     thorough={"shards": 16, "timeout_s": 4 * 3600, "n_cases": 40, "n1": 16000,
               "required_classes": ["C17.family_mean_field", "C17.family_full_cov", "C17.posterior_tightness_checked", "C17.recursion_quadratic"]},
 )
